@@ -24,13 +24,14 @@ import (
 type c14Input struct {
 	Model    *gen.Model `json:"model"`
 	TypePerm []int      `json:"type_perm,omitempty"`
+	AllPerms bool       `json:"all_type_permutations,omitempty"` // <= 4 types: every permutation of type_definitions
 	JSONs    []string   `json:"json_encodings,omitempty"`
 	Text     string     `json:"text,omitempty"`
 }
 
 const c14Rule = "rapid-generated DSL-expressible models, plain and modular (module/file attribution on types, on relations added by extensions, on conditions; file names over an " +
 	"alphabet with blanks, '#', ',', ':' and non-ASCII; items with a module but no file); oracle: output identical over 10 repeated calls, over 3 rapid-shuffled/re-indented JSON " +
-	"encodings through TransformJSONStringToDSL, and (modular models) over a rapid-drawn permutation of type_definitions; order of types, relations, conditions and parameters in the " +
+	"encodings through TransformJSONStringToDSL, and (modular models) over ALL permutations of type_definitions (<= 4 types) or a rapid-drawn one; order of types, relations, conditions and parameters in the " +
 	"output equals an independent sort by the documented key (name; or unattributed first, module, file, name); with source information an independent comment stripper gives the plain " +
 	"output byte-for-byte and both parse to proto.Equal models. Non-trivial = modular model with >= 2 modules and an extension relation; distinct by model content."
 
@@ -272,7 +273,19 @@ func c14Check(in c14Input) string {
 			mods[t.Module] = true
 		}
 	}
-	if modular && len(in.TypePerm) == len(m.Types) {
+	perms := [][]int{in.TypePerm}
+	if in.AllPerms && len(m.Types) <= 4 {
+		idx := make([]int, len(m.Types))
+		for i := range idx {
+			idx[i] = i
+		}
+		perms = permutationsInt(idx)
+	}
+	for _, perm := range perms {
+		if !modular || len(perm) != len(m.Types) {
+			continue
+		}
+		in.TypePerm = perm
 		pm := m.Clone()
 		src := m.Clone()
 		for i, j := range in.TypePerm {
@@ -352,6 +365,7 @@ func c14Draw(rt *rapid.T) c14Input {
 		idx[i] = i
 	}
 	in.TypePerm = rapid.Permutation(idx).Draw(rt, "typePerm")
+	in.AllPerms = len(m.Types) <= 4
 	if js, err := protojson.Marshal(m.Proto()); err == nil {
 		for i := 0; i < 3; i++ {
 			in.JSONs = append(in.JSONs, shuffleJSON(rt, string(js)))
